@@ -330,10 +330,18 @@ def _replacement_roles(f, A):
 
 
 def _side_fields(body, e):
-    """for a comparator operand expression: (param index, field name) if it is `param...field`"""
+    """for a comparator operand expression: (param index, field name) if it is `param...field`, or a field of the element of the
+    replacement list selected by a parameter (`list[*param].field`)"""
     for root, fs in access_paths(e, through_calls={'deref', 'borrow', 'as_ref', 'clone'}):
-        if root[0] == 'arg' and fs:
+        if root[0] == 'arg' and root[3] == body.key and fs:
             return root[1], fs[-1]
+    top = e
+    while top[0] in ('ref', 'deref', 'cast', 'upvar'):
+        top = top[1]
+    if top[0] == 'field':
+        params = {x[1] for x in walk(top[1]) if x[0] == 'arg' and x[3] == body.key and x[1] >= 2}
+        if len(params) == 1:
+            return next(iter(params)), top[2]
     return None
 
 
